@@ -1,9 +1,16 @@
 check("C08", "model_checking",
-      "SyltAnnot (TLA+) defines the annotation sites of a program and the erasure universe Masks(n, np); MC_Annot emits the programs of the "
-      "pairwise-nesting universe with their site counts and then validates the recorded compile results: TLC asserts that each record covers the "
-      "spec's mask universe (every subset of the program-specific sites when there are <= 8/6, plus all-on, all-off, every single site on/off and "
-      "every prefix erased over all sites) and that all variants are accepted with one and the same Lua digest. Bounded: sampled programs in quick, "
-      "all ~14k programs in thorough.",
-      "Trusted: TLC, SyltAnnot's definition of a site (variable definitions of non-function values, parameters of non-function type, return types of "
-      "value-returning functions), the printer (its site count is cross-checked against the specification per program), FNV digest of the Lua text.",
-      "TLA+ erasure universe + TLC validation of recorded compile results over all annotation subsets", "DESIGN.md 5.5, 8/C08")
+      "SyltAnnot (TLA+) defines the annotation sites of a program and the erasure universe Masks(n, np). Two program universes are emitted by "
+      "TLC with their site counts: MC_Annot = SyltGen's pairwise-nesting programs; MC_AnnotFam = the annotation-type families of SyltAnnotFam "
+      "(G: generic / structured nominal types - generic blobs and enums, std Maybe, blobs with fn-typed and `*` fields, blobs over generics - "
+      "written bare, applied, partially applied and nested in list / tuple / Opt / Box annotations at every site kind and context, with a second "
+      "use of the same type at another instantiation before or after it, in the same or another function; S: generic function signatures called "
+      "at two instantiations; F: variable definitions whose value is function-typed but not a literal, annotated fn / pu). The harness compiles "
+      "every erasure variant; MC_AnnotVal validates the records: TLC asserts that each record covers the spec's mask universe (every subset of the "
+      "program-specific sites when there are <= 8/6 - always for the families -, plus all-on, all-off, every single site on/off and every prefix "
+      "erased over all sites) and that all variants are accepted with one and the same Lua digest. Bounded: quick = 600 P + 700 G + all 136 S + "
+      "134 F programs (seeded), thorough = all ~15.6k + 8.9k programs.",
+      "Trusted: TLC, SyltAnnot's definition of a site (variable definitions whose value is not a function literal, parameters of non-function "
+      "type that are not needed to type a call made through them, return types of value-returning functions), the well-typedness by construction "
+      "of the generated programs (the all-annotated variant being accepted is part of what is checked), the printer (its site count is "
+      "cross-checked against the specification per program), FNV digest of the Lua text.",
+      "TLA+ erasure universe + TLC validation of recorded compile results over all annotation subsets", "DESIGN.md 5.5, 8/C08; docs/C08.md")
